@@ -197,6 +197,41 @@ func Run(r *fw.Run) {
 				}
 			}
 	})
+	// second alphabet: punctuation and a Windows reserved name, for versions (file-name elements) and paths
+	alpha2 := []string{"c", "o", "n", ".", "+", "~", " ", "A", "_", "/"}
+	L2 := r.Pick(6, 7)
+	r.Bounds["second_alphabet"] = alpha2
+	r.Bounds["second_alphabet_max_len"] = L2
+	enum.Strings(alpha2, L2, fw.Workers(), func(w int) (func([]byte, int), func()) {
+		l := fw.NewLocal()
+		return func(b []byte, d int) {
+			s := string(b)
+			l.States++
+			l.Transitions++
+			for _, kind := range []string{"path", "version"} {
+				l.Execs++
+				msg, ok := forward(kind, s)
+				if ok {
+					l.Nontrivial++
+					l.Outcomes["escape-"+kind+":ok"]++
+				}
+				if msg != "" {
+					r.Violation(kind+":"+strconv.QuoteToASCII(s), msg, caseT{kind, strconv.QuoteToASCII(s)})
+				}
+			}
+			for _, kind := range []string{"unpath", "unversion"} {
+				l.Execs++
+				msg, ok := backward(kind, s)
+				if ok {
+					l.Nontrivial++
+					l.Outcomes[kind+":ok"]++
+				}
+				if msg != "" {
+					r.Violation(kind+":"+strconv.QuoteToASCII(s), msg, caseT{kind, strconv.QuoteToASCII(s)})
+				}
+			}
+		}, func() { r.Merge(l) }
+	})
 	r.Extra["injectivity_table_paths"] = len(tabP)
 	r.Extra["injectivity_table_versions"] = len(tabV)
 	e, _ := module.EscapePath("a.a/BaZ")
